@@ -7,7 +7,7 @@ from __future__ import annotations
 import random
 
 KINDS_TP = ["apply", "apply", "map", "starmap", "doublestarmap"]
-CB = ["none", "none", "sync", "async", "sraise", "araise", "sfut"]
+CB = ["none", "none", "sync", "async", "sraise", "araise", "sfut", "sobj"]
 ONC = ["prop", "prop", "prop", "swallow", "exc", "again"]
 POINTS = ["begin", "fin", "canc", "ccb", "ecb", "call", "pull"]
 
